@@ -206,7 +206,7 @@ theorem read_union (cfg : Cfg) (al fs ctx data pos) :
       | none => .error .notImpl
       | some sz =>
         (readMembers cfg fs [] (sread data pos sz)).bind fun vs =>
-          .ok (.union (sread data pos sz) vs, pos + (sread data pos sz).length) := by
+          .ok (.union (sread data pos sz) vs, pos + sz) := by
   rw [read]
   cases (Ty.union al fs).size cfg with
   | none => rfl
@@ -309,7 +309,7 @@ theorem rig_ty (cfg : Cfg) : ∀ (ty : Ty), ty.rigid cfg = true → ∃ k, ty.si
       | ok vs =>
         have hc' := rig_cover cfg fs sz hc [] _ vs hx
         have hl := sread_length d pos sz
-        show pos + (sread d pos sz).length = pos + sz ∧ (sz = 0 ∨ pos + (sread d pos sz).length ≤ d.length)
+        show pos + sz = pos + sz ∧ (sz = 0 ∨ pos + sz ≤ d.length)
         omega
 theorem rig_fields (cfg : Cfg) : ∀ (fs : Fields), Fields.rigid cfg fs = true →
     (∀ o a, Fields.layout cfg false fs (mkSt (some o) a) =
